@@ -38,14 +38,20 @@ EXPLANATION = (
     'recorded and delivered to the "disk" in blocks, a crash freezes the disk '
     'at that instant: kill -9 model, no cleanup handler touches the disk).  '
     'Nondeterminism is symbolic: crash index c (z3 Int, one fork per event: '
-    'before/after every _run_simulation call, after open(..,"w") truncated '
-    'the file, after every block of every write() call, after close, after '
-    'mkdir / remove / replace), the instants returned by time() to the '
+    'before/after every _run_simulation call, after the merge of every '
+    'individual Result inside merge_all_results (so also between the last '
+    'merge and the counter increment), after open(..,"w"/"x") created or '
+    'truncated the file, after every block of every write() call, after '
+    'close, after mkdir / remove / replace; two interruption models: kill = '
+    'disk frozen, Ctrl+C = the BaseException unwinds through the code under '
+    'test whose handlers may still write), the instants returned by time() to the '
     'results saver (z3 Reals, non-decreasing, at most K periods of 300 s so '
     'the solver decides which save patterns are feasible), SkipThisOne '
     '(z3 Bools).  Repetition n of a variation contributes 4**n (split over '
-    'buckets of 100 digits) to SUMTYPE results, so the base-4 digits of the '
-    'merged result say exactly which repetitions it contains and how often.  '
+    'buckets of 240 digits) to TWO families of SUMTYPE results (x, y; a '
+    'RATIOTYPE counter is merged in between), so the base-4 digits of every '
+    'merged result say exactly which repetitions it contains and how often, '
+    'and a half-merged repetition shows as a disagreement.  '
     'Per path: run A is killed at c, run B (fresh runner object, same '
     'parameters, same disk) must complete; per variation runned_reps == '
     'rep_max, every digit is 1, the digits are exactly those of the last '
@@ -63,7 +69,8 @@ ASSUMPTIONS = [
     'one interruption per history (run B itself is not interrupted)',
 ]
 
-DIG = 100  # base-4 digits per bucket (4**100 squared still fits a double)
+DIG = 240  # base-4 digits per bucket (4**240 squared still fits a double)
+FAMS = ('x', 'y')  # two digit-carrying SUMTYPE result families
 
 
 # ---------------------------------------------------------------------------
@@ -215,6 +222,21 @@ class MemFS:
             self.intact[p] = False
             f = _WFile(self, p, 'b' in m, str(file))
             self.event('open-w', p)
+            return f
+        if m in ('x', 'xb'):
+            # exclusive creation: fails if the name exists (file or folder)
+            if self.frozen:
+                return _DeadFile()
+            if p in self.files or p in self.dirs:
+                raise FileExistsError(errno.EEXIST, os.strerror(errno.EEXIST),
+                                      str(file))
+            if os.path.dirname(p) not in self.dirs:
+                raise _enoent(file)
+            self.files[p] = bytearray()
+            self.intact[p] = False
+            f = _WFile(self, p, 'b' in m, str(file))
+            f.mode = m
+            self.event('open-x', p)
             return f
         raise OutsideBound('open(mode=%r) is not modelled' % (mode, ))
 
@@ -442,7 +464,11 @@ class World:
         self.n_events += 1
         self.kinds.append(kind)
         if self.drv.crash_here(i, kind):
-            if self.fs is not None:
+            if self.fs is not None and not self.cfg.get('soft'):
+                # kill -9: nothing reaches the disk any more.  With
+                # cfg['soft'] the interruption is a Ctrl+C: the exception
+                # unwinds the stack, every handler / `with` of the code under
+                # test runs and may still write to the (live) disk
                 self.fs.frozen = True
             self.crashed = (i, kind, what)
             raise Crash(i, kind, what)
@@ -490,6 +516,9 @@ class World:
             res.add_new_result('x%d' % j, rs.Result.SUMTYPE,
                                4**(n % DIG) if n // DIG == j else 0)
         res.add_new_result('cnt', rs.Result.RATIOTYPE, 1, 1)
+        for j in range(self.nb):
+            res.add_new_result('y%d' % j, rs.Result.SUMTYPE,
+                               4**(n % DIG) if n // DIG == j else 0)
         self.rep_now += 1
         self.event('run-post', 'v%d' % v)
         return res
@@ -514,6 +543,18 @@ def patched(world):
     setg(rn, 'open', world.fs.open)
     setg(rs, 'os', world.fake_os)
     setg(rs, 'open', world.fs.open)
+    real_merge = rs.Result.merge
+
+    def merge(self, other):
+        # the real merge, then a crash point: the interruption lands INSIDE
+        # merge_all_results, after this Result was merged and before the next
+        # one is (after the last one: before `current_rep += 1`)
+        changes = bool(getattr(other, '_value', 1) != 0)
+        real_merge(self, other)
+        if changes:
+            world.event('merge', self.name)
+
+    setg(rs.Result, 'merge', merge)
     try:
         yield
     finally:
@@ -578,7 +619,14 @@ def decode(vals):
 
 
 def _digits_of(simres, pos, nb):
-    return decode([simres['x%d' % j][pos].get_result() for j in range(nb)])
+    """{family: {repetition id: multiplicity}} of EVERY digit-carrying
+    result family"""
+    return {f: decode([simres['%s%d' % (f, j)][pos].get_result()
+                       for j in range(nb)]) for f in FAMS}
+
+
+def _items(d):
+    return [sorted(d[f].items()) for f in FAMS]
 
 
 _UNPACK = re.compile(r'_unpack_0*(\d+)\.pickle$')
@@ -661,7 +709,8 @@ def scenario(cfg, drv, keep=False):
         out['events'] = world.n_events
         snap = fs.snapshot()
         saved, torn = saved_state(snap, world.nb)
-        out['saved'] = {v: dict(reps=s[1], n=sum(s[0].values()))
+        out['saved'] = {v: dict(reps=s[1], n=[sum(s[0][f].values())
+                                              for f in FAMS])
                         for v, s in saved.items()}
         out['torn'] = torn
         out['writes_A'] = len(fs.writes)
@@ -669,7 +718,9 @@ def scenario(cfg, drv, keep=False):
             for v in todo:
                 got = _digits_of(a.results, v, world.nb)
                 want = {i: 1 for i in world.executed['A'].get(v, [])}
-                judge_digits('uninterrupted-run:', got, want, rep_a, tags)
+                for f in FAMS:
+                    judge_digits('uninterrupted-run:', got[f], want, rep_a,
+                                 tags)
         if keep:
             out['snapshot'] = snap
             out['next_id'] = dict(world.next_id)
@@ -693,7 +744,7 @@ def scenario(cfg, drv, keep=False):
             out['outcome_B'] = out['b']
         elif cfg.get('index') is None:
             out['outcome_B'] = ['completed'] + [
-                sorted(_digits_of(b.results, v, world.nb).items())
+                _items(_digits_of(b.results, v, world.nb))
                 for v in range(nvar)]
         else:
             out['outcome_B'] = ['completed', b.runned_reps]
@@ -715,18 +766,20 @@ def scenario(cfg, drv, keep=False):
                 tags.append('restart-fails:' + et)
         elif mismatch is not None:
             got = _digits_of(b.results, mismatch, world.nb) if cfg.get(
-                'index') is None else {}
-            if any(i in got for i in saved[mismatch][0]):
+                'index') is None else {f: {} for f in FAMS}
+            if any(i in got[f] for f in FAMS for i in saved[mismatch][0][f]):
                 tags.append('different-parameters-merged')
             else:
                 tags.append('different-parameters-not-refused')
         else:
             digits_b = {}
             for pos, v in enumerate(todo):
-                s_dig, s_rep, s_skip = saved.get(v, ({}, 0, 0))
-                want = dict(s_dig)
-                for i in world.executed['B'].get(v, []):
-                    want[i] = want.get(i, 0) + 1
+                s_dig, s_rep, s_skip = saved.get(
+                    v, ({f: {} for f in FAMS}, 0, 0))
+                want = {f: dict(s_dig[f]) for f in FAMS}
+                for f in FAMS:
+                    for i in world.executed['B'].get(v, []):
+                        want[f][i] = want[f].get(i, 0) + 1
                 if cfg.get('index') is None:
                     got = _digits_of(b.results, v, world.nb)
                     rr = b.runned_reps[v] if isinstance(
@@ -744,7 +797,12 @@ def scenario(cfg, drv, keep=False):
                     got, rr = sv[v][0], b.runned_reps
                     cnt, nsk = sv[v][1], sv[v][2]
                 digits_b[v] = got
-                judge_digits('', got, want, rep_b, tags)
+                # EVERY result of the variation is judged, not only one
+                for f in FAMS:
+                    judge_digits('', got[f], want[f], rep_b, tags)
+                if any(got[f] != got[FAMS[0]] for f in FAMS):
+                    tags.append('results-accumulated-over-different-'
+                                'repetitions')
                 if rr != rep_b:
                     tags.append('runned_reps!=rep_max')
                 if cnt != rep_b:
@@ -754,7 +812,7 @@ def scenario(cfg, drv, keep=False):
                         'num_skipped_reps restarts from 0 on resume (skips '
                         'recorded in the partial file are dropped); not part '
                         'of the C07 statement')
-            out['digits_B'] = {v: sorted(d.items())[:8]
+            out['digits_B'] = {v: {f: sorted(d[f].items())[:8] for f in FAMS}
                                for v, d in digits_b.items()}
             # the final results file
             if cfg.get('index') is None:
@@ -810,7 +868,7 @@ def real_fs_restart(cfg, snapshot, next_id):
             return 'failed:' + type(e).__name__
         if cfg.get('index') is None:
             return ['completed'] + [
-                sorted(_digits_of(b.results, v, world.nb).items())
+                _items(_digits_of(b.results, v, world.nb))
                 for v in range(len(cfg['grid']))]
         return ['completed', b.runned_reps]
     finally:
@@ -861,9 +919,12 @@ FUNCS = (
 STUBS = (
     'open / os.mkdir,remove,replace,rename,listdir,path.exists.. inside '
     'pyphysim.simulations.runner and .results -> in-memory file system '
-    '(truncate on open-for-write, block-wise delivery of every write(), '
-    'atomic replace, ENOENT for a missing folder); real pickle and json run '
-    'on the real bytes',
+    '(truncate on open-for-write, exclusive creation for mode x/xb with '
+    'FileExistsError, block-wise delivery of every write(), atomic replace, '
+    'ENOENT for a missing folder); real pickle and json run on the real '
+    'bytes',
+    'Result.merge -> the real merge followed by a crash point (only when the '
+    'merged value is non-zero)',
     'time() inside SimulationResultsSaver -> fresh symbolic reals, '
     'non-decreasing, at most K*300 s apart overall; time() elsewhere -> a '
     'concrete counter (its values are pickled)',
@@ -949,7 +1010,8 @@ class _Base(Harness):
                 real = 'error: %r' % (e, )
             detail['restart_on_real_file_system'] = real if isinstance(
                 real, str) else [real[0]] + [x if isinstance(x, int) else
-                                             x[:8] for x in real[1:]]
+                                             [fam[:8] for fam in x]
+                                             for x in real[1:]]
             if real != out['outcome_B']:
                 detail['model_disagrees_with_real_file_system'] = True
                 hit = False
@@ -998,7 +1060,10 @@ class Resume(_Base):
               '/ 2 (thorough) time-triggered saves in run A, <= 1 in run B; '
               '<= 1 SkipThisOne per variation and run (never on the first '
               'call of a variation); disk blocks of 256 bytes (16, 64, 1024 '
-              'in some configurations); simulate() and simulate(index)')
+              'in some configurations); simulate() and simulate(index); two '
+              'interruption models: kill (disk frozen at the crash instant) '
+              'and Ctrl+C (soft=True: the exception unwinds through the code '
+              'under test, whose handlers may still write)')
 
     def configs(self, tier):
         out = []
@@ -1006,7 +1071,10 @@ class Resume(_Base):
             for fmt in ('pickle', 'json'):
                 for r in (1, 2, 3):
                     for dele in (False, True):
-                        out.append(_cfg(fmt, r, dele, kA=1, kB=0))
+                        # the format only matters for the final file: the
+                        # clock is symbolic for the pickle configurations
+                        out.append(_cfg(fmt, r, dele,
+                                        kA=1 if fmt == 'pickle' else 0, kB=0))
             out.append(_cfg('pickle', 3, False, kA=1, kB=1))
             out.append(_cfg('pickle', 3, False, kA=0, kB=0, skips=True))
             out.append(_cfg('pickle', 3, False, kA=1, kB=0, index=1))
@@ -1014,6 +1082,16 @@ class Resume(_Base):
             for r in (499, 500, 501):
                 out.append(_cfg('pickle', r, False, kA=0, kB=0, window=1,
                                 chunk=1024))
+            # Ctrl+C model: handlers of the code under test run after the
+            # interruption and may still write to the disk
+            out.append(_cfg('pickle', 2, True, kA=1, kB=0, soft=True))
+            out.append(_cfg('pickle', 3, False, kA=1, kB=0, soft=True))
+            out.append(_cfg('json', 3, False, kA=0, kB=0, soft=True,
+                            skips=True))
+            out.append(_cfg('pickle', 3, False, kA=0, kB=0, soft=True,
+                            index=1))
+            out.append(_cfg('pickle', 501, False, kA=0, kB=0, window=1,
+                            chunk=1024, soft=True))
         else:
             for fmt in ('pickle', 'json'):
                 for r in (1, 2, 3, 4, 5):
@@ -1039,6 +1117,16 @@ class Resume(_Base):
                             chunk=1024))
             out.append(_cfg('pickle', 1001, False, kA=0, kB=0, window=2,
                             chunk=256, index=1))
+            for r in (1, 2, 3, 4, 5):
+                out.append(_cfg('pickle', r, False, kA=1, kB=0, soft=True))
+                out.append(_cfg('json', r, True, kA=1, kB=0, soft=True))
+            out.append(_cfg('pickle', 3, False, kA=0, kB=0, soft=True,
+                            skips=True))
+            out.append(_cfg('pickle', 4, False, kA=1, kB=0, soft=True,
+                            index=1))
+            for r in (500, 501, 1001):
+                out.append(_cfg('pickle', r, False, kA=0, kB=0, window=2,
+                                chunk=1024, soft=True))
         return out
 
 
@@ -1062,6 +1150,8 @@ class ParamChange(_Base):
             out.append(_cfg('json', 2, True, kA=1, kB=0, extra=7, extra_B=8))
             out.append(_cfg('pickle', 2, False, kA=1, kB=0, index=1,
                             grid_B=[0, 6]))
+            out.append(_cfg('pickle', 2, False, kA=1, kB=0, soft=True,
+                            grid_B=[0, 6]))
         return out
 
 
@@ -1072,14 +1162,17 @@ MANIFEST = dict(
     text='Fault enumeration driven by symbolic execution of the real '
     'SimulationRunner/SimulationResultsSaver/SimulationResults code on an '
     'in-memory file system: the crash point (before/after every '
-    '_run_simulation call, after open-for-write truncated a file, after every '
-    'block of every write() call, after close/mkdir/remove/replace), the '
+    '_run_simulation call, after every single Result.merge inside '
+    'merge_all_results, after open-for-write/exclusive-create, after every '
+    'block of every write() call, after close/mkdir/remove/replace; kill and '
+    'Ctrl+C interruption models), the '
     'saver clock (symbolic non-decreasing reals: the 300 s save fires '
     'wherever z3 finds it feasible) and SkipThisOne are solver variables; '
     'every feasible combination is one path on which run A is killed, run B '
     'restarted on the disk left behind, and concrete oracles check '
     'completion, runned_reps == rep_max, every repetition counted exactly '
-    'once (base-4 digit encoding), only durably saved + newly executed '
+    'once in EVERY result (base-4 digit encoding, two result families), '
+    'only durably saved + newly executed '
     'repetitions, refusal (ValueError) of partial files of other parameters. '
     'Bounds: 2 variations, rep_max 1..3 (quick) / 1..5 and 499..1001 '
     '(thorough), pickle and json final files.',
